@@ -1739,6 +1739,10 @@ class TypeConfig:
         if self.__class__ != other.__class__:
             return False
         for argument, value in self.__xpm__.xpmvalues():
+            if argument.generator:
+                # Generated values depend on where the configuration is used
+                # (they are set when sealing), not on its content
+                continue
             if value != getattr(other, argument.name, None):
                 return False
         return True
